@@ -23,13 +23,6 @@ MOD = 'absorption.cylinder'
 FROZEN_DEGREE = {'disk12': (7, 1e-13), 'disk55': (17, 5e-7), 'disk256_cheb': (31, 1e-6)}
 
 
-def norm_(node) -> str:
-    return ast.unparse(node).replace(' ', '')
-
-
-def stmts(fn) -> list[str]:
-    return [norm_(s) for s in ast.walk(fn) if isinstance(s, ast.stmt)
-            and not isinstance(s, ast.FunctionDef | ast.If | ast.For | ast.Try | ast.With | ast.While)]
 
 
 def S(n, pos=False):
